@@ -74,8 +74,7 @@ int main()
 	// the global logger is not the subject here: library threads that log through it allocate from FastFlow's per-thread allocator, whose
 	// deregistration at thread exit is occasionally reported by ASan (heap-use-after-free in ff/allocator.hpp) - keep it silent
 	FIX8::GlobalLogger::set_levels(FIX8::Logger::Levels(FIX8::Logger::None));
-	char tmpl[] = "/tmp/verif_rot_XXXXXX";
-	const std::string dir(mkdtemp(tmpl));
+	const std::string dir(scratch_dir("rot"));
 	std::string line;
 	while (std::getline(std::cin, line))
 	{
